@@ -488,6 +488,31 @@ class Interp:
             if isinstance(v, SetV):
                 return IntV(len(v.items), len(v.items))
             return IntV(0, None)
+        if d in ("any", "all") and len(c.args) == 1 and isinstance(c.args[0], (ast.GeneratorExp, ast.ListComp)) and len(c.args[0].generators) == 1:
+            # any(<cond(x)> for x in (<literals>)): the condition evaluated for each literal
+            gen = c.args[0].generators[0]
+            if isinstance(gen.target, ast.Name) and isinstance(gen.iter, (ast.Tuple, ast.List, ast.Set)) and not gen.is_async:
+                results = []
+                for el in gen.iter.elts:
+                    st2 = dict(st)
+                    st2[gen.target.id] = self.eval(el, st)
+                    if any(self.eval_test(cond, st2) is not True for cond in gen.ifs):
+                        if all(self.eval_test(cond, st2) is False for cond in gen.ifs if self.eval_test(cond, st2) is not True):
+                            continue  # filtered out for certain
+                        results.append(None)
+                        continue
+                    results.append(self.eval_test(c.args[0].elt, st2))
+                if d == "any":
+                    if any(r is True for r in results):
+                        return BoolV(True)
+                    if all(r is False for r in results):
+                        return BoolV(False)
+                else:
+                    if any(r is False for r in results):
+                        return BoolV(False)
+                    if all(r is True for r in results):
+                        return BoolV(True)
+                return BoolV(None)
         if d in ("min", "max") and len(c.args) == 2:
             a, b = self.eval(c.args[0], st), self.eval(c.args[1], st)
             if isinstance(a, IntV) and isinstance(b, IntV):
